@@ -42,7 +42,7 @@ def main(c):
               "drivers compiled with -DNDEBUG as every build type of /repo's CMake configuration does")
 
     # ---- the real code on the structured generator (runs while Coq compiles)
-    cases = gen.cases(c.rng, c.pick(300, 12000))
+    cases = gen.cases(c.rng, c.pick(300, 5000))
     inp = "\n".join("%s %d %s" % (cs[0], cs[2], " ".join(float.hex(x) for x in cs[3])) for cs in cases) + "\n"
     with ThreadPoolExecutor(max_workers=3) as ex:
         frun = ex.submit(c.run, [driver], 900, inp)
